@@ -18,5 +18,6 @@ def run(ctx):
     #    stop), trigger bursts during and right after a run, functions that ignore their context and are
     #    released by the harness, Stop / StopAndWait / parent cancellation; judged by Trace_Group
     bubble_tv(ctx, "TestGroup", "xsync", "Trace_Group", "tv_group.cfg", "group", {"n": ctx.pick(500, 5000), "race_n": ctx.pick(1500, 15000)}, silent=False)
+    bubble_tv(ctx, "TestGroup", "xsync", "Trace_Group", "tv_group.cfg", "group perturbed", {"n": ctx.pick(400, 4000), "race_n": 0}, silent=False, perturb=True)
     ctx.assumptions += ["registrations racing with StopAndWait are also exercised with true parallelism outside the bubble (same trace vocabulary)",
                         "'keeps being invoked': at quiescence the next periodic run is due at most interval+jitter after the previous one began (fake time)"]
